@@ -79,8 +79,12 @@ def flag_tables(chk, prog, props_rule="FLAG-TABLE"):
         elif ("is", F, C(False)) in pos:
             got["F"] = ret
         else:
-            got["traced"] = ret
-    ok = got.get("T") == P("tf") and got.get("F") == P("ff") and got.get("traced") == ("where", F, P("tf"), P("ff"))
+            got.setdefault("other", []).append(ret)
+    # every flag that is not literally True / False - concrete ARRAYS included - goes through the elementwise select: an extra shortcut for concrete arrays
+    # (e.g. `tf if f.all() else ff`) collapses a mixed vector flag to one side
+    others = got.get("other", [])
+    got["traced"] = others[0] if len(others) == 1 else None
+    ok = got.get("T") == P("tf") and got.get("F") == P("ff") and len(others) == 1 and got.get("traced") == ("where", F, P("tf"), P("ff"))
     # "agree ... for concrete and array flags": the concrete arms accept operands of any shape / dtype (they just return one), so the array arm must be the
     # BROADCASTING, dtype-promoting select (jnp.where); lax.select demands operands of the flag's shape and one dtype: where(array([T, F]), 3.0, 4.0) raises
     import ast as _ast
@@ -100,7 +104,7 @@ def flag_tables(chk, prog, props_rule="FLAG-TABLE"):
         else:
             got["traced"] = ret
     ct, cf = ("call", P("tf"), (A,), ()), ("call", P("ff"), (A,), ())
-    ok = got.get("T") == ct and got.get("F") == cf and got.get("traced") == ("phi", F, ct, cf)
+    ok = got.get("T") == ct and got.get("F") == cf and got.get("traced") == ("phi", F, ct, cf) and len(r.returns) == 3
     chk.require(ok, props_rule, "FlagOp.cond", "True -> tf(*args), False -> ff(*args), traced lax.cond(f, tf, ff, *args)", derived={k: show(v) for k, v in got.items()}.__str__(), expected="tf(*args) / ff(*args) / lax.cond(f, tf, ff, *args)", where=W("cond"))
     return n + 4
 
